@@ -199,6 +199,18 @@ def run(R, replay=None):
             targets = [a_, b_] + explicit
         # exclusions that come from the configuration file (exclude_dirs), spelled with and without a trailing slash
         cfg_x = rng.choice([None, None, ["tests/"], ["test/", "docs/"], ["build"], ["sub/", "*.txt"], ["pkg/sub/"]])
+        directed = it < 3
+        if directed:
+            # the witnesses of the three known findings, in every run whatever the seed
+            shutil.rmtree(root)
+            files = ["a.py", "notes.txt", "pkg/test_a.py", "pkg/contest.py", "pkg/sub/m.py", "pkg/mod.py"]
+            dirs = ["", "pkg", "pkg/sub"]
+            for f_ in files:
+                os.makedirs(os.path.dirname(os.path.join(root, f_)), exist_ok=True)
+                open(os.path.join(root, f_), "w").write("x = 1\n")
+            multi, cfg_x, recursive = False, None, True
+            xp, spelling, explicit = [("", ".", ["notes.txt"]), ("test", ".", []), ("pkg/sub", "./", [])][it]
+            targets = [spelling] + explicit
         old = os.getcwd()
         os.chdir(root)
         try:
@@ -206,6 +218,8 @@ def run(R, replay=None):
             # include patterns from the configuration file: extensions, and patterns with a separator (such a pattern can
             # only ever match a path, never a bare name, so "name matches" is read as "walked path matches" for it)
             cfg_i = rng.choice([None, None, None, ["*.py", "*.pyw"], ["*.py", "*/sub/*"], ["*.txt", "*/pkg/*"], ["*/s*/*", "*.py"], ["*"]])
+            if directed:
+                cfg_i = None
             if cfg_x is not None or cfg_i is not None:
                 import yaml
                 cfgf = os.path.join(base, "cfg%d.yaml" % it)
